@@ -49,13 +49,13 @@ FAILING = """From Coq Require Import String NArith List.
 Import ListNotations.
 From PS Require Import Base.Bytes Base.Result Model.Converter Model.Ctor Proofs.CdbSpec Spec.CdbFormats Gen.Ctors.
 Eval vm_compute in (map fst (filter (fun kc : string * ctor => negb (match lookup (fst kc) cdb_specs with
-  | Some sp => %s (snd kc) sp | None => false end)) all_ctors)).
+  | Some sp => (%s) (snd kc) sp | None => false end)) all_ctors)).
 """
 
 
 def failing_classes(checker="ctor_matches", imports=""):
     """class keys whose decidable side condition evaluates to false on the regenerated IR"""
-    rc, out = vlib.coqc_text("failing_%s" % checker, imports + FAILING % checker)
+    rc, out = vlib.coqc_text("failing_classes", FAILING.replace("Eval vm_compute", imports + "Eval vm_compute") % checker)
     flat = re.sub(r"\s+", " ", out)
     m = re.search(r"= (\[.*?\]|nil) : list string", flat)
     if rc != 0 or not m:
@@ -324,3 +324,228 @@ def replay_c02(obj):
     r = run_probes([p])[0]
     why = check_c02(sp[p["key"]], p, r, kv.get(p["key"], []))
     return why is None, ("on the implementation: %s" % (why or "decode inverts encode"))
+
+
+# ---------------------------------------------------------------------------------------------
+# C03: data buffers match the transfer the CDB announces (on the implementation)
+
+XFER_DUMP = """From Coq Require Import String NArith List.
+Import ListNotations.
+From PS Require Import Spec.CdbFormats.
+Open Scope string_scope.
+Definition xl (l : xlen) : string * string * string * N :=
+  match l with XZero => ("zero", "", "", 0%N) | XArg x => ("arg", x, "", 0%N) | XMul x y => ("mul", x, y, 0%N)
+             | XMulK x k => ("mulk", x, "", k) end.
+Definition xo (o : xout) : string * (string * string * string * N) :=
+  match o with OZeros l => ("zeros", xl l) | OCaller x => ("caller", ("", x, "", 0%N))
+             | OCallerUnless f x => ("callerunless", ("", x, f, 0%N)) | OParamList => ("paramlist", ("", "", "", 0%N))
+             | OAta => ("ata", ("", "", "", 0%N)) end.
+Definition xi (i : xin) : string * (string * string * string * N) :=
+  match i with IZeros l => ("zeros", xl l) | IAta => ("ata", ("", "", "", 0%N)) end.
+Eval vm_compute in (map (fun kx => (fst kx, xo (fst (snd kx)), xi (snd (snd kx)))) xfer_specs).
+"""
+
+_XFER = {}
+
+
+def xfer_specs():
+    if _XFER:
+        return _XFER
+    with vlib.Lock():
+        vlib.coq_make(["Spec/CdbFormats.vo"])
+    rc, out = vlib.coqc_text("xfer_dump", XFER_DUMP)
+    flat = re.sub(r"\s+", " ", out)
+    pat = r'\("([\w.]+)", \("(\w+)", \("(\w*)", "(\w*)", "(\w*)", (\d+)(?:%N)?\)\), \("(\w+)", \("(\w*)", "(\w*)", "(\w*)", (\d+)(?:%N)?\)\)\)'
+    for m in re.finditer(pat, flat):
+        g = m.groups()
+        _XFER[g[0]] = dict(out=dict(kind=g[1], lk=g[2], x=g[3], y=g[4], k=int(g[5])),
+                           inn=dict(kind=g[6], lk=g[7], x=g[8], y=g[9], k=int(g[10])))
+    if len(_XFER) < 40:
+        raise RuntimeError("could not parse the xfer dump:\n" + out[-1500:])
+    return _XFER
+
+
+def xlen_value(d, args):
+    lk = d["lk"]
+    if lk == "zero":
+        return 0
+    if lk == "arg":
+        return args.get(d["x"])
+    if lk == "mul":
+        a, b = args.get(d["x"]), args.get(d["y"])
+        return None if a is None or b is None else a * b
+    if lk == "mulk":
+        a = args.get(d["x"])
+        return None if a is None else a * d["k"]
+    return None
+
+
+def buf_len(v):
+    if v[0] == "b":
+        return len(v[1])
+    if v[0] == "z":
+        return v[1]
+    return None
+
+
+def ata_rule(a):
+    tl = {1: a["fetures"], 2: a["count"], 3: a.get("extra_tl") or 0}.get(a["t_length"], 0)
+    if a["t_length"] == 0:
+        unit = 0
+    elif not a["byte_block"]:
+        unit = 1
+    elif not a["t_type"]:
+        unit = 512
+    else:
+        unit = a["blocksize"]
+        if unit == 0:
+            return None
+    n = tl * unit
+    return (n, 0) if a["t_dir"] == 0 else (0, n)
+
+
+def check_c03(xs, cspec, probe, res):
+    r = res["res"]
+    args = dict((k, v[1]) for k, v in probe["kw"] if v[0] == "i")
+    raw = dict((k, v) for k, v in probe["kw"])
+    if xs["inn"]["kind"] == "ata":
+        a = dict(args)
+        a.setdefault("extra_tl", None)
+        exp = ata_rule(a)
+        if exp is None:
+            return None if (r[0] == "exn" and r[1] == "MissingBlocksizeException") else \
+                "ATA transfer in blocks without a block size was not refused (%s)" % (r[:2],)
+        if r[0] != "ok":
+            return None if r[1] == "MemoryError" else "constructor raised %s" % r[1]
+        data = raw.get("data")
+        for which, idx, n, is_dir in (("dataout", 2, exp[0], args["t_dir"] == 0), ("datain", 3, exp[1], args["t_dir"] != 0)):
+            if data and data[0] == "b" and data[1] and is_dir:
+                if r[idx] != data:
+                    return "%s is not the caller's data" % which
+            elif buf_len(r[idx]) != n:
+                return "%s has length %r, SAT transfer is %d bytes" % (which, buf_len(r[idx]), n)
+        return None
+    if r[0] != "ok":
+        return None
+    dout, din = r[2], r[3]
+    if buf_len(dout) is None:
+        return "data-out buffer is not a byte buffer: %s" % (dout,)
+    if buf_len(din) is None:
+        return "data-in buffer is not a byte buffer: %s" % (din,)
+    exp_in = xlen_value(xs["inn"], args)
+    if exp_in is not None and (buf_len(din) != exp_in or (din[0] == "b" and any(din[1]))):
+        return "data-in buffer has length %d, the CDB announces %d" % (buf_len(din), exp_in)
+    o = xs["out"]
+    if o["kind"] == "zeros":
+        exp = xlen_value(o, args)
+        if exp is not None and buf_len(dout) != exp:
+            return "data-out buffer has length %d, expected %d" % (buf_len(dout), exp)
+    elif o["kind"] == "caller":
+        if dout != raw.get(o["x"]) and not (dout[0] == "z" and raw.get(o["x"], [""])[0] == "b" and not any(raw[o["x"]][1])):
+            return "data-out is not the caller's data"
+    elif o["kind"] == "callerunless":
+        if args.get(o["y"]):
+            if buf_len(dout) != 0:
+                return "data-out is not empty although %s is set" % o["y"]
+        elif dout != raw.get(o["x"]):
+            return "data-out is not the caller's data"
+    elif o["kind"] == "paramlist":
+        cdb = r[1]
+        X = int.from_bytes(bytes(cdb), "big")
+        for f in cspec["fields"]:
+            if f["src"] == "ParamListLen":
+                lo = 8 * (len(cdb) - f["byte"] - 1) + f["msb"] + 1 - f["width"]
+                got = (X >> lo) & ((1 << f["width"]) - 1)
+                if got != buf_len(dout):
+                    return "PARAMETER LIST LENGTH is %d, the parameter list has %d bytes" % (got, buf_len(dout))
+    return None
+
+
+def probes_c03(ci, rng, nrandom):
+    sp = specs()[ci["key"]]
+    base = base_args(ci, sp)
+    sa = [[k, v] for k, v in sa_t10().items()]
+    op = natural_opcode(sp["len"])
+    out = []
+
+    def mk(assign, raw=None):
+        a = dict(base)
+        a.update({k: ["i", v] for k, v in assign.items()})
+        a.update(raw or {})
+        return dict(key=ci["key"], stem=ci["stem"], cls=ci["cls"], op=op, sa=sa, pos=[], kw=[[p, a[p]] for p in ci["params"]],
+                    calls=[], args=assign)
+
+    P = ci["params"]
+    if ci["cls"].startswith("ATAPassThrough"):
+        for tl in range(4):
+            for bb in (0, 1):
+                for tt in (0, 1):
+                    for d in (0, 1):
+                        for bs in (0, 512, 4096):
+                            for ex in (None, 7):
+                                for data in (["n"], ["b", [1, 2, 3]]):
+                                    raw = {"data": data, "extra_tl": ["n"] if ex is None else ["i", ex]}
+                                    out.append(mk(dict(t_length=tl, byte_block=bb, t_type=tt, t_dir=d, blocksize=bs,
+                                                       fetures=3, count=5, protocal=4, command=0xEC), raw))
+        return out
+    grid = {}
+    for p in P:
+        if p == "blocksize":
+            grid[p] = [1, 512, 4096]
+        elif p in ("tl",):
+            grid[p] = [0, 1, 7]
+        elif p in ("alloclen", "alloc_len"):
+            grid[p] = [0, 1, 8, 255, 4096]
+        elif p in ("ndob",):
+            grid[p] = [0, 1]
+        elif p in ("nb",):
+            grid[p] = [0, 3]
+    keys = sorted(grid)
+
+    def rec(i, cur):
+        if i == len(keys):
+            raw = {}
+            if "data" in P and ci["cls"] not in ("ModeSelect6", "ModeSelect10"):
+                raw["data"] = ["b", [rng.randint(1, 255) for _ in range(rng.choice([0, 1, 16]))]]
+            out.append(mk(dict(cur), raw))
+            return
+        for v in grid[keys[i]]:
+            cur[keys[i]] = v
+            rec(i + 1, cur)
+    rec(0, {})
+    if ci["cls"] in ("ModeSelect6", "ModeSelect10"):
+        for sname in ("modesel_control", "modesel_disconnect", "modesel_ctrlext", "modesel_eaa"):
+            out.append(mk({}, {"data": ["o", sname]}))
+    return out
+
+
+def search_c03(summary, seed, classes=None, nrandom=0):
+    sp, xs = specs(), xfer_specs()
+    rng = random.Random(seed ^ 0xC03)
+    probes = []
+    for ci in summary["ctors"]["ctors"]:
+        if classes is not None and ci["key"] not in classes:
+            continue
+        if ci["key"] in xs and ci["key"] in sp and ci.get("cls"):
+            probes += probes_c03(ci, rng, nrandom)
+    res = run_probes(probes)
+    hits, seen = [], set()
+    for p, r in zip(probes, res):
+        why = check_c03(xs[p["key"]], sp[p["key"]], p, r)
+        if why:
+            sig = (p["key"], re.sub(r"\d+", "N", why))
+            if sig in seen:
+                continue
+            seen.add(sig)
+            hits.append(dict(kind="c03-probe", id="%s: %s" % (p["key"], re.sub(r"\d+", "N", why)),
+                             probe={k: v for k, v in p.items() if k != "calls"}, observed=why))
+    return hits, len(probes)
+
+
+def replay_c03(obj):
+    sp, xs = specs(), xfer_specs()
+    p = dict(obj["probe"])
+    p["calls"] = []
+    r = run_probes([p])[0]
+    why = check_c03(xs[p["key"]], sp[p["key"]], p, r)
+    return why is None, ("on the implementation: %s" % (why or "the buffers match the announced transfer"))
